@@ -75,20 +75,20 @@ func (p Probe) String() string {
 
 // Case is the replay artefact of the history engine and of the lanes.
 type Case struct {
-	Engine string  `json:"engine"` // history | lane | wrapper
-	Path   []Op    `json:"path,omitempty"`
-	Probe  *Probe  `json:"probe,omitempty"`
-	Rate   int     `json:"rate,omitempty"`
+	Engine string    `json:"engine"` // history | lane | wrapper
+	Path   []Op      `json:"path,omitempty"`
+	Probe  *Probe    `json:"probe,omitempty"`
+	Rate   int       `json:"rate,omitempty"`
 	Wrap   *WrapCase `json:"wrap,omitempty"`
 }
 
 var instSeq int
 
 type inst struct {
-	name string
-	b    breaker.Breaker
-	m    *Model
-	log  []string // verbose trace (replay mode)
+	name    string
+	b       breaker.Breaker
+	m       *Model
+	log     []string // verbose trace (replay mode)
 	verbose bool
 	frozen  bool // look-ahead fork: the model is shared with the original and must not be updated
 }
@@ -221,24 +221,28 @@ func (in *inst) step(e Entry, out int, ans int, at float64) (si stepInfo, f *fai
 	return si, nil
 }
 
-// rotation of entry points and outcome kinds along the expansion path
+// rotation of entry points and outcome kinds along the expansion path: a fixed mixing function of
+// (op index, call index inside a burst), so that every live entry point and every outcome kind
+// that means success / failure occurs on expansion paths. Deterministic; not random testing: the
+// look-ahead covers the full matrix in every state anyway.
 func rotate(idx, j int, success bool) (Entry, int) {
-	n := idx*7 + j*3 + idx*idx
-	e := liveEntries[n%len(liveEntries)]
+	h := uint32(idx)*2654435761 + uint32(j)*40503 + 12345
+	h ^= h >> 13
+	h *= 0x5bd1e995
+	h ^= h >> 15
+	e := liveEntries[int(h%uint32(len(liveEntries)))]
+	sel := int((h >> 8) % 4)
 	if success {
-		if (e.hasAcceptable() || e.Base == bAllow) && (n/len(liveEntries))%2 == 1 {
-			return e, oAccErr
-		}
-		if (e.hasAcceptable() || e.Base == bAllow) && j%2 == 1 {
-			return e, oAccErr
+		if (e.hasAcceptable() || e.Base == bAllow) && sel < 2 {
+			return e, oAccErr // a non-nil error the predicate accepts
 		}
 		return e, oOK
 	}
-	if e.Base != bAllow && (j+idx)%2 == 1 {
+	if e.Base != bAllow && sel < 2 {
 		return e, oPanic
 	}
-	if !e.hasAcceptable() && e.Base != bAllow && j%3 == 2 {
-		return e, oAccErr // an error the default predicate does not accept
+	if !e.hasAcceptable() && e.Base != bAllow && sel == 2 {
+		return e, oAccErr // an error the default predicate (err == nil) does not accept
 	}
 	return e, oBad
 }
@@ -316,13 +320,13 @@ func replay(path []Op, verbose bool) (in *inst, f *fail, fi int) {
 }
 
 type probeStats struct {
-	Probes   int `json:"n"`
-	Rejected int `json:"rej"`
-	Admitted int `json:"adm"`
-	Done     int `json:"done"`
-	Coin     int `json:"coin"`
-	Forced   int `json:"forced"`
-	Shed     int `json:"shed"`
+	Probes   int  `json:"n"`
+	Rejected int  `json:"rej"`
+	Admitted int  `json:"adm"`
+	Done     int  `json:"done"`
+	Coin     int  `json:"coin"`
+	Forced   int  `json:"forced"`
+	Shed     int  `json:"shed"`
 	Law      bool `json:"law"`
 }
 
